@@ -2,6 +2,7 @@ import XzVerif.Proofs.Segment
 import XzVerif.Proofs.Tables
 import XzVerif.Proofs.Lzma1RoundTrip
 import XzVerif.Proofs.Writer1
+import XzVerif.Proofs.Writer1I
 /-
   C06 — Classic .lzma round trip is lossless and the explicit-size contract is enforced.
 
@@ -117,5 +118,60 @@ example : W1.CfgOk (W1.fill { props := ⟨3, 0, 2⟩, dictCap := 4096, bufSize :
   unfold W1.CfgOk W1.fill; decide
 
 example : OpsOk {} (Lzma1.encHist { props := ⟨3, 0, 2⟩, dictCap := 4096, size := some 0 }) [] := OpsOk.nil _ _
+
+/-! ### without a hypothesis about the match finder: the HashTable4 and BinaryTree models (Proofs/Writer1I.lean) -/
+
+theorem C06_size_contract_write_hashtable4 (c : W1.Cfg) (hc : W1.CfgOk c) (ps : List ByteArray) :
+    (W1.run c HT.HT4 (W1.init c (HT.St.new c.w2.dictCap c.w2.bufSize)) (ps.map .write ++ [.close])).1.take ps.length =
+      W1.specWrites c.size 0 ps :=
+  W1.writes_spec_I c hc HT.HT4 (HT.Synced c.w2) (HT.ht4_matcherInv c.w2) _ (HT.synced_new c.w2) ps
+
+theorem C06_size_contract_write_bintree (c : W1.Cfg) (hc : W1.CfgOk c) (ps : List ByteArray) :
+    (W1.run c BT.BT4 (W1.init c (BT.St.new c.w2.dictCap c.w2.bufSize)) (ps.map .write ++ [.close])).1.take ps.length =
+      W1.specWrites c.size 0 ps :=
+  W1.writes_spec_I c hc BT.BT4 (BT.Synced c.w2) (BT.bt4_matcherInv c.w2) _ (BT.synced_new c.w2) ps
+
+/-- **The property itself for the classic writer model with the HashTable4 model**: every valid configuration (all 225
+    property codes, any dictionary capacity / look-ahead, the three end modes), every partition into Write calls:
+    Close fails with errSize exactly when an announced size was not reached; otherwise the stream starts with the truthful
+    header and the classic reader model decodes it to exactly the accepted bytes with a clean end, every byte consumed,
+    the end marker present exactly as configured. -/
+theorem C06_close_and_roundtrip_hashtable4 (c : W1.Cfg) (hc : W1.CfgOk c) (ps : List ByteArray) (cfgCap : Nat)
+    (hcap : cfgCap ≤ max c.dictCap 4096) :
+    let res := W1.run c HT.HT4 (W1.init c (HT.St.new c.w2.dictCap c.w2.bufSize)) (ps.map .write ++ [.close])
+    let data := W1.acceptedData c.size 0 ps
+    ((match c.size with
+      | some sz => data.size ≠ sz
+      | none => False) →
+      (res.1.drop ps.length = [(0, some .size)] ∧ res.2 = none))
+    ∧
+    ((match c.size with
+      | some sz => data.size = sz
+      | none => True) →
+      res.1.drop ps.length = [(0, none)] ∧
+      ∃ o, res.2 = some o ∧ o.extract 0 13 = Lzma1.headerBytes c.header ∧
+        (Lzma1.read cfgCap o).status = .eof ∧ (Lzma1.read cfgCap o).out = data ∧
+        (Lzma1.read cfgCap o).consumed = o.size ∧ (Lzma1.read cfgCap o).marker = c.marker ∧
+        (Lzma1.read cfgCap o).openError = false) :=
+  W1.close_spec_I c hc HT.HT4 (HT.Synced c.w2) (HT.ht4_matcherInv c.w2) _ (HT.synced_new c.w2) ps cfgCap hcap
+
+theorem C06_close_and_roundtrip_bintree (c : W1.Cfg) (hc : W1.CfgOk c) (ps : List ByteArray) (cfgCap : Nat)
+    (hcap : cfgCap ≤ max c.dictCap 4096) :
+    let res := W1.run c BT.BT4 (W1.init c (BT.St.new c.w2.dictCap c.w2.bufSize)) (ps.map .write ++ [.close])
+    let data := W1.acceptedData c.size 0 ps
+    ((match c.size with
+      | some sz => data.size ≠ sz
+      | none => False) →
+      (res.1.drop ps.length = [(0, some .size)] ∧ res.2 = none))
+    ∧
+    ((match c.size with
+      | some sz => data.size = sz
+      | none => True) →
+      res.1.drop ps.length = [(0, none)] ∧
+      ∃ o, res.2 = some o ∧ o.extract 0 13 = Lzma1.headerBytes c.header ∧
+        (Lzma1.read cfgCap o).status = .eof ∧ (Lzma1.read cfgCap o).out = data ∧
+        (Lzma1.read cfgCap o).consumed = o.size ∧ (Lzma1.read cfgCap o).marker = c.marker ∧
+        (Lzma1.read cfgCap o).openError = false) :=
+  W1.close_spec_I c hc BT.BT4 (BT.Synced c.w2) (BT.bt4_matcherInv c.w2) _ (BT.synced_new c.w2) ps cfgCap hcap
 
 end Props.C06
